@@ -123,9 +123,56 @@ pub enum SFocus {
     Extreme,
     Independent,
     Faults,
+    /// Handlers that finish while the response buffer is full and the sink is stalled (their
+    /// response send is parked), then cancels / id reuse / expiry hit the parked request.
+    Parked,
+}
+
+fn gen_parked(rng: &mut Rng) -> ServerScn {
+    let n_fill = rng.range(1, 2) as usize; // requests whose responses fill buffer and sink
+    let mut script = Vec::new();
+    let mut handlers = Vec::new();
+    let fast = |rng: &mut Rng| HandlerPlan { steps: if rng.chance(500) { vec![] } else { vec![HStep::Yield(1)] }, err: false, run: RunMode::Execute };
+    for _ in 0..=n_fill {
+        script.push(PeerAct { delay_ms: 0, kind: PeerKind::Req { id: IdRef::Fresh, deadline: Dl::Ms(*rng.pick(&[50i64, 1000])), sampled: false, untraced: false } });
+        handlers.push(fast(rng));
+    }
+    // the victim: finishes quickly, parks on the full buffer
+    let victim = script.len();
+    script.push(PeerAct { delay_ms: 0, kind: PeerKind::Req { id: IdRef::Fresh, deadline: Dl::Ms(*rng.pick(&[8i64, 50, 1000])), sampled: false, untraced: false } });
+    handlers.push(fast(rng));
+    // then: cancel it, and/or reuse its id, at small delays
+    if rng.chance(800) {
+        script.push(PeerAct { delay_ms: rng.range(0, 3), kind: PeerKind::Cancel { of: CancelOf::Entry(victim) } });
+        handlers.push(fast(rng));
+    }
+    if rng.chance(800) {
+        script.push(PeerAct { delay_ms: rng.range(0, 3), kind: PeerKind::Req { id: IdRef::DupOf(victim), deadline: Dl::Ms(1000), sampled: false, untraced: false } });
+        handlers.push(HandlerPlan { steps: vec![HStep::SleepMs(rng.range(5, 40))], err: false, run: RunMode::Execute });
+    }
+    if rng.chance(300) {
+        script.push(PeerAct { delay_ms: rng.range(0, 5), kind: PeerKind::Req { id: IdRef::DupOf(victim), deadline: Dl::Ms(1000), sampled: false, untraced: false } });
+        handlers.push(fast(rng));
+    }
+    ServerScn {
+        resp_buf: 1,
+        limit: None,
+        link: LinkCfg { cap: 1, coupled: true, sticky: true, faults: vec![] },
+        stalls: vec![(0, rng.range(4, 25))],
+        script,
+        handlers,
+        eof_at_end: true,
+        drop_stream_at: None,
+        preempt_permille: *rng.pick(&[0u32, 0, 60]),
+        subscriber: 0,
+        long: false,
+    }
 }
 
 pub fn gen(rng: &mut Rng, focus: SFocus) -> ServerScn {
+    if focus == SFocus::Parked {
+        return gen_parked(rng);
+    }
     let n = rng.range(1, if focus == SFocus::Limit { 8 } else { 6 }) as usize;
     let small = [1usize, 2, 3];
     let resp_buf = if rng.chance(600) { *rng.pick(&small) } else { 100 };
@@ -933,6 +980,9 @@ pub fn build_model(log: &[Ev], node: u8, link: u8) -> ServerModel {
     let mut cur: HashMap<u64, usize> = HashMap::new();
     let mut by_tag: HashMap<u64, usize> = HashMap::new();
     let mut task_begin: HashMap<u16, u64> = HashMap::new();
+    // cancels read (kind 0) and responses written (1 handler response, 2 throttle response), in
+    // history order; attributed to incarnations after the pass
+    let mut raw: Vec<(u64, i64, u64, u8, bool)> = Vec::new();
     for e in log {
         m.times.push(e.t);
         match &e.kind {
@@ -959,36 +1009,16 @@ pub fn build_model(log: &[Ev], node: u8, link: u8) -> ServerModel {
                     by_tag.insert(*tag, idx);
                     // provisional: becomes current incarnation of the id if it is yielded or
                     // throttled; a duplicate-while-in-flight that is ignored never does
-                    if let Some(prev) = cur.get(id) {
-                        let p = &m.incs[*prev];
-                        // Unclean reuse: the previous incarnation ended without its response
-                        // being written although its handler had finished (the response may
-                        // still sit in the buffer), or the application dropped it (a guard
-                        // cancellation carrying only the id may still be queued). A previous
-                        // incarnation that was aborted by a Cancel or by its deadline before
-                        // finishing leaves nothing behind: reuse after that is clean.
-                        if p.resp.is_empty() && (p.finish.is_some() || p.unrun.is_some()) {
-                            m.incs[idx].prev_unanswered_at_read = true;
-                        }
-                    }
                 }
                 Item::Cancel { id, .. } => {
-                    if let Some(ci) = cur.get(id) {
-                        let inc = &mut m.incs[*ci];
-                        let still = inc.resp.is_empty() && inc.cancel_read.is_none();
-                        if still {
-                            inc.cancel_read = Some(e.seq);
-                        }
-                    }
+                    raw.push((e.seq, e.t, *id, 0, false));
                 }
                 _ => {}
             },
             EvKind::Yielded { node: n, tag, id, .. } if *n == node => {
                 if let Some(ix) = by_tag.get(tag) {
                     m.incs[*ix].yielded = Some(e.seq);
-                    if cur.insert(*id, *ix).is_some() && m.incs[*ix].prev_unanswered_at_read {
-                        m.unclean.insert(*id);
-                    }
+                    cur.insert(*id, *ix);
                 }
             }
             EvKind::HandlerStart { node: n, inc, .. } if *n == node => {
@@ -1025,24 +1055,33 @@ pub fn build_model(log: &[Ev], node: u8, link: u8) -> ServerModel {
             }
             EvKind::TOp { link: l, op: Op::Send, res, item: Some(Item::Resp { id, err, .. }) } if *l == link => {
                 let throttle = err.as_ref().map(|x| x.1 == THROTTLE_DETAIL).unwrap_or(false);
-                // which incarnation does it answer? a throttle response answers the latest read
-                // request with that id; a handler response the current yielded incarnation
-                let target = if throttle {
-                    m.incs.iter().rposition(|i| i.id == *id && i.yielded.is_none() && i.resp.is_empty())
-                } else {
-                    cur.get(id).copied()
-                };
-                if let Some(ix) = target {
-                    m.incs[ix].resp.push((e.seq, e.t, throttle, *res == Res::Ok));
-                    if throttle {
-                        // a throttled request never became the current incarnation
-                    }
-                } else {
-                    // orphan: recorded under a pseudo incarnation with tag u64::MAX
-                    m.incs.push(Inc { id: *id, tag: u64::MAX, read_seq: u64::MAX, resp: vec![(e.seq, e.t, throttle, *res == Res::Ok)], dup_ignored: true, ..Default::default() });
-                }
+                raw.push((e.seq, e.t, *id, if throttle { 2 } else { 1 }, *res == Res::Ok));
             }
             _ => {}
+        }
+    }
+    // Attribution. The channel tracks requests by id only, and a request is tracked from the
+    // moment it is read: a cancel or a handler response with id X concerns the latest request
+    // with id X that was read before it and went on to be yielded; a throttle response concerns
+    // the latest read request with id X that was not yielded and has no response yet.
+    for (seq, t, id, kind, ok) in raw {
+        match kind {
+            0 => {
+                if let Some(ix) = m.incs.iter().rposition(|i| i.id == id && i.tag != u64::MAX && i.yielded.is_some() && i.read_seq < seq) {
+                    let inc = &mut m.incs[ix];
+                    if inc.resp.is_empty() && inc.cancel_read.is_none() {
+                        inc.cancel_read = Some(seq);
+                    }
+                }
+            }
+            1 => match m.incs.iter().rposition(|i| i.id == id && i.tag != u64::MAX && i.yielded.is_some() && i.read_seq < seq) {
+                Some(ix) => m.incs[ix].resp.push((seq, t, false, ok)),
+                None => m.incs.push(Inc { id, tag: u64::MAX, read_seq: u64::MAX, resp: vec![(seq, t, false, ok)], dup_ignored: true, ..Default::default() }),
+            },
+            _ => match m.incs.iter().rposition(|i| i.id == id && i.tag != u64::MAX && i.yielded.is_none() && i.resp.is_empty() && i.read_seq < seq) {
+                Some(ix) => m.incs[ix].resp.push((seq, t, true, ok)),
+                None => m.incs.push(Inc { id, tag: u64::MAX, read_seq: u64::MAX, resp: vec![(seq, t, true, ok)], dup_ignored: true, ..Default::default() }),
+            },
         }
     }
     // Unclean reuse, decided over the whole history: an incarnation that was followed by another
@@ -1200,7 +1239,9 @@ pub fn check(scn: &ServerScn, log: &[Ev], sim: &Sim, node: u8) -> Vec<Violation>
                     v.push(viol("C04", "response-after-cancel", &[], format!("tag {} (id {}): cancel read at seq {c}, response transmitted at seq {}", i.tag, i.id, rsp.0)));
                 }
             }
-            if rsp.1 >= i.deadline.saturating_add(2) && !extreme {
+            // a request that arrives already expired is given a zero-length timer when it is
+            // read: "afterwards" is counted from whichever is later
+            if rsp.1 >= i.deadline.max(i.read_t).saturating_add(2) && !extreme {
                 let mut tags = vec![];
                 if limit.is_some() {
                     tags.push("limit");
@@ -1262,7 +1303,7 @@ pub fn check(scn: &ServerScn, log: &[Ev], sim: &Sim, node: u8) -> Vec<Violation>
                 && !i.finish.map(|f| f < *iseq).unwrap_or(false)
                 && !i.hdrop.map(|d| d.0 < *iseq).unwrap_or(false)
                 && !i.unrun.map(|d| d < *iseq).unwrap_or(false);
-            if running && *it >= i.deadline.saturating_add(2) && !extreme {
+            if running && *it >= i.deadline.max(i.read_t).saturating_add(2) && !extreme {
                 let mut tags = vec![];
                 if limit.is_some() {
                     tags.push("limit");
